@@ -6,7 +6,7 @@ from lib.verif import *
 
 THEOREMS = [
     "C07_add_once", "C07_adds_returned_are_decided", "C07_one_response_per_run",
-    "C07_restart_exact_partial", "C07_rollback_partial",
+    "C07_restart_exact", "C07_restart_gap_refuted", "C07_rollback",
 ]
 MODULE = "LV.Circuit.Props"
 TARGETS = ["theories/Circuit/Props.vo", "theories/Circuit/Exec.vo", "theories/Circuit/Examples.vo"]
@@ -92,6 +92,11 @@ def case_term(c):
 
 EMPTY = {"np": 0, "no": 0, "p": [], "o": []}
 nrestart_checked = [0]
+nrestart_contig = [0]
+nrestart_gap = [0]
+nfailed_delete_wf = [0]
+nfailed_delete_notwf = [0]
+witness_seen = {}
 
 
 def kt(k):
@@ -120,9 +125,10 @@ def single_ks(snap):
     return len(ins) == len(set(ins)) and all(e[1][2] == e[0] for e in snap["o"])
 
 
-def expected_after_restart(pre, rc):
-    """Set-level restart specification computed from the implementation's own
-    pre-restart observation (valid when memory == disk, see caller)."""
+def restart_sets(pre, rc):
+    """Purge rule of cleanClosedChannels on the implementation's own pre-restart
+    observation (valid when memory == disk, see caller): durable circuits and the
+    live keystones (= cm.opened after restoreMemState)."""
     closed = {c[0] for c in rc["closed"] if not c[1] and c[0] != 0}
     resmsg = {kt(k) for k in rc["resmsg"]}
     ks = {kt(e[0]): kt(e[1][0:2]) for e in pre["o"]}          # out -> in
@@ -131,27 +137,62 @@ def expected_after_restart(pre, rc):
                 if i[0] in closed or (o[0] in closed and o not in resmsg)}
     purge_in = {k for k in pays if k[0] in closed} | {ks[o] for o in purge_ks}
     pend = {k: p for k, p in pays.items() if k not in purge_in}
-    opened = {o: i for o, i in ks.items() if o not in purge_ks and i in pend}
-    for a in rc["active"]:
-        scid, ispending, tip, ridx = a
+    live = {o: i for o, i in ks.items() if o not in purge_ks and i in pend}
+    return pend, live
+
+
+def act_starts(rc):
+    """(channel, NextLocalHtlcIndex) pairs trimAllOpenCircuits trims with"""
+    out = []
+    for scid, ispending, tip, ridx in rc["active"]:
         if ispending or scid == 0:
             continue
-        i = tip if tip is not None else ridx
-        while (scid, i) in opened:
-            del opened[(scid, i)]
-            i += 1
+        out.append((scid, tip if tip is not None else ridx))
+    return out
+
+
+def contiguous_on_disk(live, rc):
+    """Hypothesis of C07_restart_exact (Spec.contiguous_on_disk): the live keystones of
+    an active channel at or above its NextLocalHtlcIndex form one block starting there."""
+    for scid, start in act_starts(rc):
+        ids = sorted(o[1] for o in live if o[0] == scid and o[1] >= start)
+        if ids != list(range(start, start + len(ids))):
+            return False
+    return True
+
+
+def expected_after_restart(pre, rc):
+    """Set-level restart specification.  Returns (pend, opened, outs, contiguous).
+    When the contiguity hypothesis holds `opened` is the closed form of
+    C07_restart_exact (live keystones strictly below NextLocalHtlcIndex); otherwise
+    the scan rule of TrimOpenCircuits (contiguous run from start, entry by entry)."""
+    pend, live = restart_sets(pre, rc)
+    contig = contiguous_on_disk(live, rc)
+    if contig:
+        starts = act_starts(rc)
+        opened = {o: i for o, i in live.items()
+                  if not any(o[0] == c and o[1] >= st for c, st in starts)}
+    else:
+        opened = dict(live)
+        for scid, i in act_starts(rc):
+            while (scid, i) in opened:
+                del opened[(scid, i)]
+                i += 1
+    trimmed_in = {i for o, i in live.items() if o not in opened}
     outs = {}
     for o, i in opened.items():
+        if i in trimmed_in:
+            continue          # Outgoing is nil as soon as one keystone of the circuit was trimmed
         if i not in outs or o > outs[i]:
             outs[i] = o
-    return pend, opened, outs
+    return pend, opened, outs, contig
 
 
 def predicate(case):
     """Returns list of (theorem, message).  Model-independent: only the
     implementation's returned values and lookups are used."""
     fails = []
-    seq = case["mode"] in ("seq", "exh")
+    seq = case["mode"] in ("seq", "exh") or (case["mode"] == "wit" and case.get("name") != "delete_races_commit")
     responded, addev = set(), {}
     calls = {}            # thread -> dict(kind, args, pre snapshot, removed keys, adds)
     prev = EMPTY
@@ -184,7 +225,7 @@ def predicate(case):
                             want = "fail" if (pv[k][3] and pv[k][2] is None) else "drop"
                             other = "drop" if want == "fail" else "fail"
                             if k not in got[want] or k in got[other]:
-                                fails.append(("C07_restart_exact_partial",
+                                fails.append(("C07_restart_exact",
                                               "step %d: re-forward of pending %s (loaded=%s, keystone=%s) "
                                               "was not answered with %s" % (n, k, pv[k][3], pv[k][2], want)))
             if kind == "delete":
@@ -236,6 +277,18 @@ def predicate(case):
                         if o[0] == "commit" and o[1]:
                             fails.append(("C07_rollback", "step %d: failed commit still returned Adds" % n))
                 # rollback: a failed transaction leaves every observable as before the call
+                if seq and info.get("ok") is False and info["kind"] == "delete":
+                    # hypothesis wf_out of C07_rollback's DeleteCircuits clause, checked on the
+                    # implementation's own state before the call
+                    if snap_wf(info["pre"]):
+                        nfailed_delete_wf[0] += 1
+                    else:
+                        nfailed_delete_notwf[0] += 1
+                if seq and info.get("ok") is False and info["kind"] == "trim":
+                    # TrimOpenCircuits has no rollback (C07_rollback, last clause): the call
+                    # reports the error and the keystones stay trimmed in memory
+                    if o != ["err", 4]:
+                        fails.append(("C07_rollback", "step %d: failed trim returned %s" % (n, o)))
                 if seq and info.get("ok") is False and info["kind"] in ("commit", "open", "delete"):
                     if (info["kind"] != "delete" or snap_wf(info["pre"])) and snap != info["pre"]:
                         fails.append(("C07_rollback",
@@ -245,7 +298,11 @@ def predicate(case):
             rc = i[1]
             if seq and clean and mem_is_disk and not calls and single_ks(prev) and snap_wf(prev):
                 nrestart_checked[0] += 1
-                pend, opened, outs = expected_after_restart(prev, rc)
+                pend, opened, outs, contig = expected_after_restart(prev, rc)
+                if contig:
+                    nrestart_contig[0] += 1
+                else:
+                    nrestart_gap[0] += 1
                 gotp = {kt(e[0]): e[1] for e in snap["p"]}
                 goto = {kt(e[0]): e[1] for e in snap["o"]}
                 if set(gotp) != set(pend):
@@ -288,6 +345,48 @@ def predicate(case):
                               "intervening delete/rollback/restart" % (tm, k)))
             last = what
     return fails
+
+
+def witness_report(rows):
+    """Do the scripted hazard histories (Examples.v / RestartProofs.v witnesses) still
+    manifest on the real circuitMap?  Informational: the correspondence run already
+    compares every step of them with the model."""
+    rep = {}
+    for c in rows:
+        if c.get("mode") != "wit":
+            continue
+        st = c["steps"]
+        last = st[-1]
+        name = c["name"]
+        try:
+            if name == "gap":
+                r = [x for x in st if x["in"][0] == "restart"][0]
+                ok = any(kt(e[0]) == (2, 2) for e in r["snap"]["o"])
+            elif name == "failed_trim":
+                cm = [x for x in st if x["in"][0] == "call" and x["in"][2] == "commit"][-1]["out"]
+                ok = ([1, 2] in cm[3] and [1, 1] in cm[2] and last["out"][0] == "circ"
+                      and last["out"][1][0:2] == [1, 2])
+            elif name == "delete_races_commit":
+                rets = [x["out"] for x in st if x["in"][0] == "mem" and x["out"][0] == "commit"]
+                ok = len(rets) == 2 and all(r[1] == [[1, 0]] and not r[4] for r in rets)
+            elif name == "dup_out_in_batch":
+                ok = last["out"] == ["err", 1] and any(kt(e[0]) == (1, 1) and e[1][2] == [2, 0]
+                                                       for e in last["snap"]["p"])
+            elif name == "double_keystone":
+                ok = last["snap"]["np"] == 0 and any(kt(e[0]) == (2, 0) for e in last["snap"]["o"])
+            elif name == "trim_no_rollback":
+                ok = last["out"] == ["err", 4] and last["snap"]["no"] == 0
+            elif name == "delete_rollback":
+                pre = [x for x in st if x["in"][0] == "call" and x["in"][2] == "delete"][0]
+                before = st[st.index(pre) - 1]["snap"]
+                after = [x for x in st if x["in"][0] == "mem" and x["out"] == ["err", 4]][0]["snap"]
+                ok = last["out"] == ["err", 3] and before == after
+            else:
+                ok = None
+        except Exception as e:  # noqa
+            ok = "unreadable: %s" % e
+        rep[name] = "manifests" if ok is True else ("does NOT manifest" if ok is False else str(ok))
+    return rep
 
 
 def hist(rows):
@@ -368,8 +467,10 @@ def run(ctx):
         "kvdb: one kvdb.Update/Batch = one atomic, durable step (bbolt is exercised, not modelled)",
         "PaymentCircuit Encode/Decode and the error-encrypter re-extraction are exercised by the "
         "harness (restored circuits are compared field by field) but not modelled",
-        "PARTIAL theorems: the surviving-keystone clause of restart and DeleteCircuits' rollback are "
-        "tied by the correspondence run and the implementation-side predicate only (notes/C07.md)"])
+        "link discipline hypotheses carried by the theorems (notes/C07.md, call-site argument): "
+        "contiguous_on_disk (C07_restart_exact; refuted without it: C07_restart_gap_refuted), "
+        "single_keystone (last clause of C07_restart_exact), wf_out (DeleteCircuits clause of "
+        "C07_rollback); each is evaluated on the implementation's own state by the python predicate"])
     env = {}
     if ctx.replay:
         try:
@@ -435,6 +536,11 @@ def run(ctx):
         "samples": [[s["in"] for s in allrows[0]["steps"][:8]]],
         "correspondence_mismatches": nbad, "predicate_failures": nfail,
         "restarts_checked_against_set_level_spec": nrestart_checked[0],
+        "restarts_where_contiguity_hypothesis_holds": nrestart_contig[0],
+        "restarts_with_a_gap_checked_against_scan_rule": nrestart_gap[0],
+        "failed_deletes_with_wf_out_hypothesis": nfailed_delete_wf[0],
+        "failed_deletes_without_wf_out": nfailed_delete_notwf[0],
+        "witness_histories_on_real_code": witness_report(allrows),
     })
     ctx.assumptions += [
         "atomicity/durability of a kvdb transaction (bbolt) is assumed, not proved",
